@@ -6,6 +6,8 @@ CONSTANTS
   Gen = FALSE
   StripProps = {"hash_c1", "hash_c2"}
   Weak = {}
+  GuidBytes = {}
+  Vias = {"disc", "api"}
 INVARIANT Inv_NoViolation
 PROPERTY Live
 CHECK_DEADLOCK FALSE
